@@ -285,6 +285,8 @@ def main(run, tier):
         run.function(f, scratch.sha256_file(scratch.module_path(f))[:16])
     from . import parsefwd
     parsefwd.add(run, tier)
+    from . import lexstate
+    lexstate.add(run, tier)
     action_obligations(run, g, shapes)
     family_obligations(run, g)
     conflict_obligations(run)
